@@ -31,3 +31,12 @@ class ScipyDelay(ss.Intervention):
         self.vals = []
     def step(self):
         self.vals.append((self.delay.rvs(4).tolist(), self.delay2.rvs(self.sim.people.auids[:5]).tolist()))
+
+
+class ZeroTransOfInfected(ss.Connector):
+    """Sets the relative transmissibility of every currently infectious agent to zero (and restores the others to one)."""
+    def step(self):
+        for d in self.sim.diseases():
+            if isinstance(d, ss.Infection):
+                d.rel_trans[self.sim.people.auids] = 1.0
+                d.rel_trans[d.infectious.uids] = 0.0
